@@ -27,6 +27,7 @@ def generate(ck, prop, tier, seed):
     with open(vec, "w") as sink:
         g1 = vlib.must_hold(vlib.tlc("ThriftWire", "Gen_ThriftWire.cfg", workers=8, sink=sink), "generation (1 field)")
         ck.add_mc(g1, "Gen_ThriftWire(1 field, all types, all ids)")
+        ck.notes["first_part"] = g1.vectors
         g2 = vlib.must_hold(vlib.tlc("ThriftWire", "Gen_ThriftWire.cfg", workers=vlib.NCPU, sink=sink, defines=multi,
                                      tag="ThriftWire-gen2", timeout=3000), "generation (multi-field)")
         ck.add_mc(g2, "Gen_ThriftWire(%s fields, types %s, ids %s)" % (multi["MaxFields"], ",".join(sorted(set(types))), sorted(set(ids))))
@@ -37,6 +38,9 @@ def generate(ck, prop, tier, seed):
 def run(prop, tier, seed, rule, assumptions, shards=4, isolate=False, vlimit_kb=None):
     ck = vlib.Check(prop, tier, seed)
     vec = generate(ck, prop, tier, seed)
+    kept, total = vlib.cap_vectors(vec, 400000 if tier == "thorough" else 40000, seed, keep_first=ck.notes.get("first_part", 0))
+    ck.notes["vectors_generated"], ck.notes["vectors_replayed"] = total, kept
+    ck.exhaustive_replay = kept == total
     ck.binary = vlib.build_harness()
     rr = vlib.run_harness(ck.binary, prop, vec, seed=seed, tier=tier, shards=shards, timeout=3000, isolate=isolate, vlimit_kb=vlimit_kb)
     os.unlink(vec)
@@ -45,7 +49,7 @@ def run(prop, tier, seed, rule, assumptions, shards=4, isolate=False, vlimit_kb=
         ck.violations.append(({"t": "div", "prop": prop, "api": "process", "want": "no fatal error",
                                "got": "fatal: " + cr["stderr"][:400], "case": {"vector_index": cr["index"]}}, 1))
     ck.triage(rr.divs, vlimit_kb=vlimit_kb)
-    ck.exhaustive = True
+    ck.exhaustive = getattr(ck, "exhaustive_replay", True)
     ck.rule = rule
     ck.assumptions = assumptions
     return ck.finish()
